@@ -60,7 +60,7 @@ def family(ctx: Ctx) -> List[Tuple[str, str, Dict[str, Any]]]:
         for c in (2, 16):
             for op in ("==", "<"):
                 for o in ("fc", "cf"):
-                    for sp in ("pushint", "intc", "hex", "oct"):
+                    for sp in ("pushint", "intc", "hex", "oct", "intcd"):
                         add(f"c/{ref[1]}-{c}-{op}-{o}-{sp}", tg.Program((tg.Check(tg.Atom(ref, op, (sp, c), o), "assert"), tg.Exit("approve"))))
     # (d) all shapes
     shape_atoms = [tg.Atom(GS, ">=", ("int", 2)), tg.Atom(GI, "!=", ("int", 0), "cf")]
